@@ -242,8 +242,38 @@ type adTwice struct {
 	X int      `config:"x"`
 }
 
+// adTwiceInt: one pointer in two fields, the bound in the tag of the second one only.
+type adTwiceInt struct {
+	P *int `config:"p"`
+	Q *int `config:"q" validate:"min=5"`
+	X int  `config:"x"`
+}
+
 func aliasedDefaultsCase(r *sim.R, e *E, opts []ucfg.Option) {
 	t := r.T
+	if t.Chance(1, 5, "one-pointer-two-fields-bound-on-the-second") {
+		r.Probe("unpack: one pointer held by two fields, a bound in the tag of the second")
+		v := []int{3, 7}[t.Choose(2, "value")]
+		in := map[string]interface{}{}
+		if t.Bool("mention-x") {
+			in["x"] = uint64(3)
+		}
+		cfg, err := ucfg.NewFrom(in, opts...)
+		if err != nil {
+			panic("harness: aliased defaults config: " + err.Error())
+		}
+		target := adTwiceInt{P: &v, Q: &v}
+		r.MustComplete("Unpack", func() { err = cfg.Unpack(&target, opts...) })
+		r.StateOps++
+		r.Tracef("config %v over p = q = &%d, q tagged min=5: %v", in, v, err)
+		if v < 5 && err == nil {
+			e.fail("validators-hold", "Unpack", nil, "Unpack succeeded although the result breaks a validator of a field's tag: q = %d breaks min=5 (a default; the field p holds the same pointer)", v)
+		}
+		if v >= 5 && err != nil {
+			e.fail("success", "Unpack", nil, "Unpack of %v over valid defaults (one pointer in two fields) failed: %v", in, err)
+		}
+		return
+	}
 	r.Probe("unpack: defaults that share memory (slices over one array, pointer into a slice)")
 	n := 2 + t.Choose(2, "elements")
 	all := make([]SBInner, n)
